@@ -240,7 +240,52 @@ pub fn ops_short(ops: &[Op]) -> String {
 
 /// Buffer life-time policy (C12): in `scribble` mode a buffer is overwritten with its complement,
 /// freed, and a junk buffer of the same size is allocated as soon as the borrowing call returns.
+/// A private region caller buffers are carved from during the retention scan (C12): buffer addresses are
+/// then distinctive (nothing else lives there), never stored in the harness' own heap objects (only offsets
+/// are), and can be shifted between two runs of the same history.
+pub struct Arena {
+    base: *mut u8,
+    cap: usize,
+    pub next: usize,
+    /// (offset, len) of every buffer lent so far
+    pub lent: Vec<(usize, usize)>,
+}
+impl Arena {
+    pub const GUARD: usize = 4096;
+    pub fn new(cap: usize, shift: usize) -> Arena {
+        let v: Vec<u8> = vec![0u8; cap];
+        let base = Box::leak(v.into_boxed_slice()).as_mut_ptr();
+        Arena { base, cap, next: Arena::GUARD + shift, lent: Vec::new() }
+    }
+    /// address range of lent buffer `i`
+    pub fn range(&self, i: usize) -> (usize, usize) {
+        let (o, l) = self.lent[i];
+        (self.base as usize + o, self.base as usize + o + l)
+    }
+    fn lend(&mut self, bytes: &[u8]) -> Option<&'static [u8]> {
+        let off = (self.next + 63) & !63;
+        if off + bytes.len() + 64 > self.cap {
+            return None;
+        }
+        self.next = off + bytes.len() + 64;
+        self.lent.push((off, bytes.len()));
+        // SAFETY: inside the leaked allocation; the region is never handed out twice
+        unsafe {
+            core::ptr::copy_nonoverlapping(bytes.as_ptr(), self.base.add(off), bytes.len());
+            Some(core::slice::from_raw_parts(self.base.add(off), bytes.len()))
+        }
+    }
+}
+impl Drop for Arena {
+    fn drop(&mut self) {
+        // SAFETY: allocated in `new` as a boxed slice of `cap` bytes and leaked
+        unsafe { drop(Box::from_raw(core::slice::from_raw_parts_mut(self.base, self.cap))) }
+    }
+}
+
 pub struct Bufs {
+    /// Some = retention-scan run: buffers come from the arena and stay intact
+    pub arena: Option<Arena>,
     pub scribble: bool,
     /// scribble but keep the allocation alive (deterministic native detection of re-reads)
     pub keep_alive: bool,
@@ -250,9 +295,19 @@ pub struct Bufs {
 }
 impl Bufs {
     pub fn new(scribble: bool) -> Bufs {
-        Bufs { scribble, keep_alive: false, kept: Vec::new(), junk: Vec::new(), bytes_lent: 0 }
+        Bufs { arena: None, scribble, keep_alive: false, kept: Vec::new(), junk: Vec::new(), bytes_lent: 0 }
     }
     pub fn with<R>(&mut self, img: &Img, f: impl FnOnce(&mut Bufs, &[u8]) -> R) -> R {
+        if self.arena.is_some() {
+            let bytes = img.make();
+            self.bytes_lent += bytes.len() as u64;
+            let lent = self.arena.as_mut().and_then(|a| a.lend(&bytes));
+            drop(bytes);
+            if let Some(slice) = lent {
+                return f(self, slice);
+            }
+            // arena exhausted: fall through to an ordinary buffer (the scan ignores it)
+        }
         let mut v = img.make();
         self.bytes_lent += v.len() as u64;
         let r = f(self, &v);
